@@ -139,6 +139,10 @@ CORPUS = [
     ("net", [-1], [1]),                             # N7: network of point neurons
     ("net", [-1, 0, 0], [1, 1, 1]),
     ("net", [-1, 2, 0], [2, 1, 2]),
+    # networks of cells of DIFFERENT depth / shape (a jaxley backend may refuse them, never answer differently)
+    ("netdiff", [[-1, 0, 0], [-1, 0, 0, 1, 1]], [[2, 2, 2], [2, 2, 2, 2, 2]]),
+    ("netdiff", [[-1, 0, 1, 1], [-1, 0, 0]], [[1, 1, 1, 1], [1, 1, 1]]),
+    ("netdiff", [[-1], [-1, 0, 1, 2]], [[3], [3, 3, 3, 3]]),
 ]
 
 
@@ -167,6 +171,9 @@ def run(args):
             d = random_cell_desc(rng, morph=(parents, ncomp))
             check_case(R, drv, d, build_cell(d), sum(ncomp), dt, 0, "cell", combos)
             R.distinct.add(json.dumps([parents, ncomp]))
+        elif kind == "netdiff":
+            ds = [random_cell_desc(rng, morph=(p_, n_)) for p_, n_ in zip(parents, ncomp)]
+            check_net(R, drv, ds, False, dt, combos)
         else:
             ds = [random_cell_desc(rng, morph=(parents, ncomp)) for _ in range(3)]
             check_net(R, drv, ds, True, dt, combos)
